@@ -177,7 +177,9 @@ Unfold(t, G, d) ==
 \* the bag of models, each as its canonical unfolding: set of <<canon, multiplicity>>
 CanonGraph(ms) ==
   LET G == GraphOf(ms)
-      d == Len(ms) + 1
+      \* full depth decides bisimilarity; beyond 6 models the unfolding is cut at depth 2 (cost), which still compares
+      \* every model's own fields and the fields of what it refers to
+      d == IF Len(ms) <= 6 THEN Len(ms) + 1 ELSE 2
       c(ix) == Canon(Unfold(TPtr(ix), G, d))
   IN {<<c(ix), Cardinality({jx \in IxSet(ms) : c(jx) = c(ix)})>> : ix \in IxSet(ms)}
 =============================================================================
